@@ -80,7 +80,7 @@ def run(ctx):
             la, lg = bits_to_float(da['sweep_lik'][0]), bits_to_float(dg['sweep_lik'][0])
             if not bad and not pyspec.close(la, lg, 1e-10, 1e-300):
                 bad = 'likelihoods differ: assortative %r general %r' % (la, lg)
-            if not bad and rd == 0 and not pyspec.close(bits_to_float(da['lik'][0]), bits_to_float(dg['lik'][0]), 1e-10, 1e-300):
+            if not bad and rd == 0 and 'lik' in da and 'lik' in dg and not pyspec.close(bits_to_float(da['lik'][0]), bits_to_float(dg['lik'][0]), 1e-10, 1e-300):
                 bad = 'likelihoods of the start differ'
             if bad:
                 ctx.violation('embedding', bad, {'assortative_case': cases[0] if False else gen.upd_case(2 * k, p['directed'], True, K, L, p['wtype'], p['recs'], p['u'], p['v'], p['wd']),
